@@ -12,7 +12,8 @@ DECIDING = ["contract:partial_transpose", "O2:involution", "O2:all=transpose", "
             "O3:realign-product", "O3:frobenius", "O4:cvxpy-value", "H1:repeat-call", "O1:many-subsystems"]
 RULE = ("cases = square (dims 1..4, n<=5) and rectangular (dims 2..4, n<=3) operators x every subset S as list/array/int x dtype, "
         "unique-id entries; realignment on square and rectangular bipartite blocks with every dim calling form; a signature is "
-        "(monitor, n, |S|, rectangular?) and is non-trivial when the result differs from the input")
+        "(monitor, n, |S|, rectangular?) and is non-trivial when the result differs from the input; plus 9..13 subsystems, repeat calls with the same "
+        "ndarray sys / dim objects, one cvxpy Variable transposed under several factorisations and after a new value")
 CASE_TIMEOUT = {"quick": 240, "thorough": 3000}
 ASSUMPTIONS = [
     "reference model = swap of tensor axes s <-> n+s on the (row dims + col dims) tensor, exact comparison",
